@@ -1,3 +1,4 @@
+import SdxProofs.BuildTable
 import Props.C18
 import Props.C10
 import SdxProofs.SubsFrom
@@ -444,5 +445,80 @@ theorem C01_sample_strings (E : Env α) (inp : ForestIn α) (F : Forest α) (hin
             exact ⟨t1, leaf, ht1, hl, h1, h2, by rw [← h3]; exact hvm⟩
           · rw [hnil] at hv; simp at hv
         · exact Or.inl hmask
+
+/-- what C01 says about the cell standing for column `j`: if the column is a string column and the cell holds a string, the string
+is a mask, or is coded by a single-point range released for column `j` by a releasable node of a forest tree, or has a safe code
+(the value of a filter-passing single-point leaf of the column's own tree) -/
+def StringBacked (E : Env α) (F : Forest α) (convs : List (Conv α)) (j : Nat) (cell : Cell α × α) : Prop :=
+  ∀ (vm : List String) (safe : List Nat) (str : String),
+    (analyzeConvertors E F convs).getD j .bool = .string vm safe → cell.1 = .str str →
+      (∃ pre v, str = pre ++ "*" ++ toString (v : Nat)) ∨
+      (∃ m k rr out t' x, Releasable E F.ctx m ∧ Node.Sub m t' ∧ TInvO E F.ctx rr out t' ∧ k < m.data.comb.length ∧
+        m.data.comb.getD k 0 = j ∧ m.bucketIntervals.getD k default = ⟨x, x⟩ ∧
+        vm[(ScalarOps.trunc x : Int).toNat]? = some str) ∨
+      (∃ t1 leaf, F.tree? E 8 [j] = some t1 ∧ leaf ∈ t1.leaves 100000 ∧ leaf.isSing = true ∧
+        leaf.overThreshold E F.ctx F.ctx.ap.supp.lt = true ∧
+        vm[(ScalarOps.trunc ((leaf.data.actual.getD 0 default).lo) : Int).toNat]? = some str)
+
+/-- every microtable is well-typed for `StringBacked` (`C01_sample_strings`, cell by cell) -/
+theorem materializeTree_stringBacked (E : Env α) (inp : ForestIn α) (F : Forest α) (hinit : Forest.init E inp = .ok F)
+    (hn : 0 < inp.raw.size) (hlt : 0 ≤ F.ctx.ap.supp.lt) (convs : List (Conv α)) (comb : List Nat) (hk : 1 ≤ comb.length)
+    (hstream : List Nat) (mstream : List (Draw α)) (rows : List (List (Cell α × α))) (drawn left : Nat)
+    (h : materializeTree E F convs comb hstream mstream = .ok (rows, drawn, left)) :
+    TableOK (StringBacked E F convs) (rows, comb) := by
+  have hS := C01_sample_strings E inp F hinit hn hlt convs comb hk hstream mstream rows drawn left h
+  -- the row lengths
+  have hlen : ∀ row ∈ rows, row.length = comb.length := by
+    unfold materializeTree at h
+    split at h
+    · cases h
+    · rename_i t ht
+      split at h
+      · cases h
+      · rename_i bs drawn' hh
+        simp only at h
+        split at h
+        · cases h
+        · rename_i rows' rest hm
+          simp only [Except.ok.injEq, Prod.mk.injEq] at h
+          obtain ⟨rfl, _, _⟩ := h
+          intro row hrow
+          obtain ⟨b, hb, hfor⟩ := microdata_cells E _ _ bs mstream rest rows' hm row hrow
+          have hbl := (C01_bucket_ranges_in_forest E inp F hinit hn hlt 8 comb hk t ht hstream bs drawn' hh b hb).1
+          rw [← hfor.length_eq]
+          simp [hbl]
+  intro row hrow
+  refine ⟨hlen row hrow, fun k hk' vm safe str hconv hcell => ?_⟩
+  have hr : k < row.length := by rw [hlen row hrow]; exact hk'
+  have e : row.getD k default = row[k] := by simp [List.getD_eq_getElem?_getD, hr]
+  have ecomb : comb.getD k 0 = comb[k] := by simp [List.getD_eq_getElem?_getD, hk']
+  rw [e] at hcell
+  have hcell' : row[k]? = some (.str str, row[k].2) := by
+    rw [List.getElem?_eq_getElem hr, ← hcell]
+  have := hS row hrow k vm safe str row[k].2 hk' (by rw [ecomb]; exact hconv) hcell'
+  rw [ecomb] at this
+  exact this
+
+/-- **C01 for the strings of a whole synthetic table (any cluster plan).**  Whatever plan `build_table` is given — stitched and
+patched derived clusters, both ownership modes — and whatever the data, ids, salt, parameters and RNG streams: a string standing in
+a string column `j` of the assembled table is a mask `prefix*index`, or the string coded by the single value of a range `[x, x]`
+released *for column `j`* by a node of a forest tree that is a branch or a filter-passing leaf (so backed by `low_threshold` distinct
+entities per id column, `C01_node_backed_*`, with values inside, `C01_node_values_inside`), or a string with a safe code. Stitching and
+patching move cells only under their own column (`buildTable_cells`), so nothing new is released by assembling clusters. -/
+theorem C01_table_strings (E : Env α) (inp : ForestIn α) (F : Forest α) (hinit : Forest.init E inp = .ok F)
+    (hn : 0 < inp.raw.size) (hlt : 0 ≤ F.ctx.ap.supp.lt) (convs : List (Conv α))
+    (isIntegral : List Bool) (entropy : List α) (threshRel : α) (cl : Clusters)
+    (hini : 1 ≤ cl.initial.length) (hder : ∀ dc ∈ cl.derivedClusters, 1 ≤ dc.derived.length)
+    (streams : List (List Nat × List (Draw α))) (s s' : List (Draw α)) (res : MTable (Cell α) α)
+    (h : (buildTable E F convs isIntegral entropy threshRel cl streams).run s = .ok (res, s')) :
+    ∀ row ∈ res.1, row.length = res.2.length ∧
+      ∀ (k : Nat) (hk : k < res.2.length), StringBacked E F convs res.2[k] (row.getD k default) := by
+  have hM : MaterializeOK E F convs (StringBacked E F convs) := by
+    intro cols hc streams s s' res hm
+    obtain ⟨hcomb, drawn, left, hmt⟩ := materializeGM_tree E F convs cols streams s s' res hm
+    have := materializeTree_stringBacked E inp F hinit hn hlt convs _ (by rw [sortAscStable_length]; exact hc) _ _ res.1 drawn left hmt
+    rw [← hcomb] at this
+    exact this
+  exact buildTable_cells E F convs isIntegral entropy threshRel cl streams s s' res _ hini hder hM h
 
 end
